@@ -156,10 +156,11 @@ func (h *Handler) Handle(down *layer4.Connection, _ layer4.Handler) error {
 
 	var upConns []net.Conn
 	var proxyErr error
+	var upstream *Upstream
 
 	for {
 		// choose an available upstream
-		upstream := h.LoadBalancing.SelectionPolicy.Select(h.Upstreams, down)
+		upstream = h.LoadBalancing.SelectionPolicy.Select(h.Upstreams, down)
 		if upstream == nil {
 			if proxyErr == nil {
 				proxyErr = fmt.Errorf("no upstreams available")
@@ -187,6 +188,17 @@ func (h *Handler) Handle(down *layer4.Connection, _ layer4.Handler) error {
 	defer func() {
 		for _, conn := range upConns {
 			_ = conn.Close()
+		}
+	}()
+
+	// count the connection on every peer of the upstream while it is proxied, so that
+	// max_connections / unhealthy_connection_count and least_conn see it
+	for _, p := range upstream.peers {
+		_ = p.countConn(1)
+	}
+	defer func() {
+		for _, p := range upstream.peers {
+			_ = p.countConn(-1)
 		}
 	}()
 
